@@ -40,7 +40,9 @@ def main():
     wt = "/tmp/confirm_" + sid
     sh(["git", "-C", "/repo", "worktree", "remove", "--force", wt])
     r = sh(["git", "-C", "/repo", "worktree", "add", "--detach", wt, "HEAD"])
-    meta = dict(id=sid, property=sid[:3], patch="patch.diff", demonstration=os.path.basename(demos[0]) if demos else None)
+    head = sh(["git", "-C", "/repo", "rev-parse", "--short", "HEAD"]).stdout.strip()
+    meta = dict(id=sid, property=sid[:3], patch="patch.diff", demonstration=os.path.basename(demos[0]) if demos else None,
+                base_commit=head)
     try:
         os.makedirs(wt + "/_d", exist_ok=True)
         env = dict(os.environ, ASAN_OPTIONS="detect_leaks=0")
